@@ -575,3 +575,6 @@ func globAny(globs, s string) bool {
 	}
 	return false
 }
+
+// FieldNameOf renders "Type.Field" of a field address.
+func FieldNameOf(fa *ssa.FieldAddr) string { return typeField(fa) }
